@@ -37,6 +37,9 @@ type SimErr struct {
 }
 
 func (e *SimErr) Error() string {
+	if e == nil {
+		return "simulated failure (typed nil *SimErr)"
+	}
 	return fmt.Sprintf("simulated failure #%d of party %d exec %d", e.N, e.Party, e.Exec)
 }
 
@@ -51,7 +54,23 @@ type ExecRec struct {
 	Out       []uint64
 	Err       *SimErr
 	NilStruct bool
-	Planning  bool // happened while a Redefine was being computed
+	TypedNil  bool  // returned a typed-nil *SimErr as its error (a non-nil error value)
+	ErrAny    error // returned this error value (not a *SimErr), e.g. its own *ErrArgumentUnsatisfied
+	Planning  bool  // happened while a Redefine was being computed
+}
+
+// Failed reports whether the execution returned a non-nil error value.
+func (r *ExecRec) Failed() bool { return r.Err != nil || r.TypedNil || r.ErrAny != nil }
+
+// ErrValue is the error value the execution returned (nil if none).
+func (r *ExecRec) ErrValue() error {
+	if r.ErrAny != nil {
+		return r.ErrAny
+	}
+	if r.Err != nil || r.TypedNil {
+		return r.Err
+	}
+	return nil
 }
 
 // Online is a firing of the online (in-party) invariant.
@@ -108,6 +127,8 @@ type Runtime struct {
 	defaultSlices [][]argmapper.Arg
 	opSlices      [][]argmapper.Arg
 	echo          reflect.Value
+	typedNil      bool
+	anyErr        error
 	FilterCalls   int
 	NilStructOps  map[int][]int // op -> parties that returned a nil struct during it
 	InstErr       error
@@ -356,7 +377,11 @@ func Instantiate(w *World, sim *simrt.Sim, st *core.Stats) *Runtime {
 		case ArgConv:
 			rt.args[i] = argmapper.Converter(rt.raw[a.Party])
 		case ArgConvFunc:
-			rt.args[i] = argmapper.ConverterFunc(rt.funcs[a.Party])
+			if a.NilPad {
+				rt.args[i] = argmapper.ConverterFunc(nil, rt.funcs[a.Party], nil)
+			} else {
+				rt.args[i] = argmapper.ConverterFunc(rt.funcs[a.Party])
+			}
 		case ArgGen:
 			rt.args[i] = argmapper.ConverterGen(rt.makeGen(i, a.Gen))
 		}
@@ -401,6 +426,19 @@ func FilterAccepts(a ArgSpec, t int) bool {
 func (rt *Runtime) makeGen(ai int, g *Gen) argmapper.ConverterGenFunc {
 	return func(v argmapper.Value) (*argmapper.Func, error) {
 		rt.GenCalls++
+		if g.Fault == 3 {
+			// a "wrap" generator: for every value it is offered, of whatever type X, it
+			// offers a converter X -> [1]X. Legal, and harmless as long as generators are
+			// offered each value once; nothing in a world ever asks for [1]X.
+			rt.FaultsFired["gen_wrap"]++
+			ft := reflect.FuncOf([]reflect.Type{v.Type}, []reflect.Type{reflect.ArrayOf(1, v.Type)}, false)
+			fn := reflect.MakeFunc(ft, func(args []reflect.Value) []reflect.Value {
+				out := reflect.New(ft.Out(0)).Elem()
+				out.Index(0).Set(args[0])
+				return []reflect.Value{out}
+			})
+			return argmapper.NewFunc(fn.Interface())
+		}
 		if v.Type != Types[g.Trigger] {
 			return nil, nil
 		}
@@ -507,7 +545,12 @@ func (rt *Runtime) buildParty(pi int) error {
 				}
 			}
 			outs, serr, _ := rt.exec(pi, vals)
-			if serr != nil {
+			if ae := rt.anyErr; ae != nil {
+				rt.anyErr = nil
+				return ae
+			}
+			if serr != nil || rt.typedNil {
+				rt.typedNil = false
 				return serr
 			}
 			for i, s := range p.Out {
@@ -629,7 +672,11 @@ func (rt *Runtime) buildParty(pi int) error {
 					res = append(res, reflect.Zero(t))
 				}
 				res = append(res, echo.Convert(errType))
-			} else if serr != nil {
+			} else if ae := rt.anyErr; ae != nil {
+				rt.anyErr = nil
+				res = append(res, reflect.ValueOf(ae).Convert(errType))
+			} else if serr != nil || rt.typedNil {
+				rt.typedNil = false
 				res = append(res, reflect.ValueOf(serr).Convert(errType))
 			} else {
 				res = append(res, reflect.Zero(errType))
@@ -690,6 +737,27 @@ func (rt *Runtime) exec(pi int, in []reflect.Value) (outs []reflect.Value, serr 
 		// the party returns the value it received as its error result (func(error) error)
 		rt.FaultsFired["echo_error"]++
 		rt.echo = in[0]
+		rt.Log = append(rt.Log, rec)
+		simrt.Yield(-2)
+		return nil, nil, false
+	}
+	if p.HasErr && rt.fault("unsat_error", pi, n) {
+		// the party reports an unsatisfied-argument error of its own making (what a
+		// converter gets when it calls another argmapper Func internally)
+		rec.ErrAny = &argmapper.ErrArgumentUnsatisfied{Func: rt.funcs[pi]}
+		rt.FaultsFired["unsat_error"]++
+		rt.anyErr = rec.ErrAny
+		rt.Sim.Event("fault-unsat", uint64(pi), uint64(n))
+		rt.Log = append(rt.Log, rec)
+		simrt.Yield(-2)
+		return nil, nil, false
+	}
+	if p.HasErr && rt.fault("typed_nil_error", pi, n) {
+		// a nil pointer of an error type is a non-nil error value
+		rec.TypedNil = true
+		rt.FaultsFired["typed_nil_error"]++
+		rt.typedNil = true
+		rt.Sim.Event("fault-typednil", uint64(pi), uint64(n))
 		rt.Log = append(rt.Log, rec)
 		simrt.Yield(-2)
 		return nil, nil, false
